@@ -8,7 +8,8 @@ def const_flag(v):
     v = origin(v)
     if isinstance(v, ConstV):
         return v.text.split("::")[-1]
-    return None
+    nm = getattr(v, "const_name", None)
+    return nm.split("::")[-1] if nm else None
 
 
 def actor_semantics(rep, ctx):
@@ -169,7 +170,7 @@ def check_message(rep, ctx):
             flag = const_flag(c.rargs[1])
             if flag not in names:
                 continue
-            src_ok = derives(c.rargs[0], gs[0].ret, ev) or isinstance(origin(c.rargs[0]), ConstV)
+            src_ok = derives(c.rargs[0], gs[0].ret, ev) or isinstance(origin(c.rargs[0]), ConstV) or const_flag(c.rargs[0]) == "NONE"
             clear = z3.Not(c.ret.scalar("bool"))
             bad = add_query(rep, "failed-state message path %d: %s is named <=> its flag is clear in the flags read by this query" % (i, names[flag]),
                             r.pc + [z3.BoolVal(flag in mentioned) != clear], key="C16.message:" + flag)
